@@ -30,6 +30,11 @@ def cliOrder : List String := [
   "var.Run: abortWithErr(err) when [err != nil]",
   "var.Run: stringSliceToStringMap when []",
   "var.Run: abortWithErr(err) when [err != nil]",
+  "var.Run: mapping.PackageName = s when [ok]",
+  "var.Run: mapping.PackageName = defaultPackage when [!(ok)]",
+  "var.Run: mapping.OutputName = s when [ok]",
+  "var.Run: mapping.OutputName = defaultOutput when [!(ok) && !hasPackage]",
+  "var.Run: mapping.RootType = s when [ok]",
   "var.Run: generator.New when []",
   "var.Run: abortWithErr(err) when [err != nil]",
   "var.Run: generator.DoFile when []",
